@@ -77,7 +77,10 @@ Definition flow_code (f : flow) : string :=
   match f with FCode c => c | _ => "" end.
 
 (* refstore.Users[subject] *)
-Record user := mkUser { u_name : string; u_email : string }.
+Record user := mkUser {
+  u_name : string; u_email : string;
+  u_username : string; u_phone : string; u_addr : string   (* refstore "rich claims" (ext_c06.go) *)
+}.
 
 (* ---------------- claims ---------------- *)
 Record idclaims := mkID {
@@ -86,6 +89,9 @@ Record idclaims := mkID {
   i_nonce : string; i_acr : string; i_amr : list string;
   i_at_hash : string; i_c_hash : string;
   i_name : string; i_email : string; i_email_verified : bool;
+  i_username : string;                   (* preferred_username (profile) *)
+  i_phone : string; i_phone_verified : bool;   (* phone *)
+  i_addr : string;                       (* address.formatted (address) *)
   i_extra : list (string * string)       (* any other claim: name, rendered value *)
 }.
 
@@ -134,14 +140,20 @@ Definition shifted_auth_time (auth skew : Z) : Z :=
   else (auth - skew)%Z.
 
 (* ---------------- storage (refstore contract) ---------------- *)
-Record uinfo := mkUI { ui_sub : string; ui_name : string; ui_email : string; ui_verified : bool }.
+Record uinfo := mkUI {
+  ui_sub : string; ui_name : string; ui_email : string; ui_verified : bool;
+  ui_username : string; ui_phone : string; ui_phone_verified : bool; ui_addr : string
+}.
 
-(* refstore.setUserinfo *)
+(* refstore.setUserinfo + extUserinfo: one claim group per standard scope *)
 Definition userinfo (u : option user) (sub : string) (scopes : list string) : uinfo :=
+  let for_scope (s : string) (v : user -> string) : string :=
+      match u with Some x => if string_in s scopes then v x else "" | None => "" end in
+  let has (s : string) : bool := match u with Some _ => string_in s scopes | None => false end in
   mkUI (if string_in "openid" scopes then sub else "")
-       (match u with Some x => if string_in "profile" scopes then u_name x else "" | None => "" end)
-       (match u with Some x => if string_in "email" scopes then u_email x else "" | None => "" end)
-       (match u with Some _ => string_in "email" scopes | None => false end).
+       (for_scope "profile" u_name) (for_scope "email" u_email) (has "email")
+       (for_scope "profile" u_username) (for_scope "phone" u_phone) (has "phone")
+       (for_scope "address" u_addr).
 
 (* refstore.GetPrivateClaimsFromScopes: custom:<n> -> n = "v-"client *)
 Definition custom_name (s : string) : option string :=
@@ -178,7 +190,8 @@ Section Tokens.
   Definition set_userinfo (c : idclaims) (ui : uinfo) : idclaims :=
     mkID (i_iss c) (if ui_sub ui =s "" then i_sub c else ui_sub ui) (i_aud c) (i_azp c) (i_client_id c)
          (i_exp c) (i_iat c) (i_auth_time c) (i_nonce c) (i_acr c) (i_amr c)
-         (i_at_hash c) (i_c_hash c) (ui_name ui) (ui_email ui) (ui_verified ui) (i_extra c).
+         (i_at_hash c) (i_c_hash c) (ui_name ui) (ui_email ui) (ui_verified ui)
+         (ui_username ui) (ui_phone ui) (ui_phone_verified ui) (ui_addr ui) (i_extra c).
 
   (* CreateIDToken.  [access] is the access token of the same response ("" = none).
      id_base: NewIDTokenClaims plus the two hashes *)
@@ -194,16 +207,22 @@ Section Tokens.
          (if is_exchange f then [] else rq_amr rq)
          (if access =s "" then "" else claim_hash (sk_alg k) access)
          (if flow_code f =s "" then "" else claim_hash (sk_alg k) (flow_code f))
-         "" "" false [].
+         "" "" false "" "" false "" [].
 
   (* the scopes the storage is asked to turn into user claims; None = not asked.
      Token exchange: the storage sees the request itself *)
+  (* the scopes whose claims this ID token may assert: the request's, minus what
+     the client keeps out of ID tokens, minus the userinfo scopes when an access
+     token travels with it and the client is not configured for assertion *)
+  Definition id_scopes (f : flow) (cl : client) (rq : request) (access : string) : list string :=
+    let scopes0 := restrict (cl_drop_id cl) (rq_scopes rq) in
+    if is_exchange f then rq_scopes rq
+    else if negb (access =s "") && negb (cl_assert cl) then remove_userinfo scopes0 else scopes0.
+
   Definition id_userinfo_scopes (f : flow) (cl : client) (rq : request) (access : string)
     : option (list string) :=
-    let scopes0 := restrict (cl_drop_id cl) (rq_scopes rq) in
-    let scopes := if negb (access =s "") && negb (cl_assert cl) then remove_userinfo scopes0 else scopes0 in
     if is_exchange f then Some (rq_scopes rq)
-    else match scopes with [] => None | _ => Some scopes end.
+    else match id_scopes f cl rq access with [] => None | s => Some s end.
 
   Definition mk_id_token (issuer : string) (f : flow) (cl : client) (k : sigkey) (u : option user)
              (rq : request) (access : string) (now : Z) : idclaims :=
